@@ -85,6 +85,11 @@ func (c *Ctx) flowFixture(rule string, fn func(*yyflow.Lang, map[string]*yyflow.
 		r := fn(f, sh)
 		res.Obls = append(res.Obls, r.Obls...)
 	}
+	if os.Getenv("VERIF_FXDEBUG") != "" {
+		for _, o := range res.Obls {
+			fmt.Fprintf(os.Stderr, "fxdebug %s %s %s: %s\n", rule, o.Key, o.Status, o.Detail)
+		}
+	}
 	c.compareFixture("mini", rule, dir, res)
 }
 
@@ -104,6 +109,7 @@ var flowRules = map[string]flowFn{
 	"pos-distinct":      func(f *yyflow.Lang, sh map[string]*yyflow.Shape) *report.RuleResult { return f.PosDistinct(sh) },
 	"int-parse-decimal": func(f *yyflow.Lang, sh map[string]*yyflow.Shape) *report.RuleResult { return f.IntParseDecimal() },
 	"empty-list-literal": func(f *yyflow.Lang, sh map[string]*yyflow.Shape) *report.RuleResult { return f.EmptyListLiteral() },
+	"list-index":        func(f *yyflow.Lang, sh map[string]*yyflow.Shape) *report.RuleResult { return f.ListIndex(sh) },
 	"fold-span":         func(f *yyflow.Lang, sh map[string]*yyflow.Shape) *report.RuleResult { return f.FoldSpan() },
 	"nil-deref":         func(f *yyflow.Lang, sh map[string]*yyflow.Shape) *report.RuleResult { return f.NilDeref() },
 	"assert-safe":       func(f *yyflow.Lang, sh map[string]*yyflow.Shape) *report.RuleResult { return f.AssertSafe(sh) },
